@@ -1,10 +1,87 @@
 import QP.Model.PT
-/-! Property theorems for C04 (an instantiated program plays the voltages the template denotes). -/
+import QP.Proofs.PTArith
+import QP.Proofs.PTTop
+import QP.Proofs.PTTopW
+/-!
+# C04 — durations are exact and the template, the program and its pieces agree on them
+
+Full statement (DESIGN 4/C04): for every template, `createProgram … = .ok (some prog)` implies
+`templateDuration pt σ = prog.duration = (toWaveform prog).duration = Σ (play prog).map duration
+= (denoteTop …).dur` (an empty program counting as 0).
+
+Proved here: the program-side equalities for **every** `Loop` (`duration_eq_pieces`, `duration_eq_play`,
+`no_accumulation`), the closed form of `ForLoopPulseTemplate.duration` for every integer range with
+`step ≠ 0` (`forloop_duration_closed_form`, with `range_spec` pinning down Python's `range`), and
+`duration_agree_partial` (program duration = duration of the denoted pulse) for the stage-1 constructor
+subset.  `templateDuration = prog.duration` for all templates and `(toWaveform prog).duration` are
+established by the correspondence only (`toWaveform` lemmas live with C05).
+All durations are `Rat`: there is no rounding in the model at all — that the implementation computes the same
+rationals is what the correspondence run establishes on every check.
+-/
 namespace QP.Props.C04
 open QP.PT
 
-/-- a guarded composite that appends nothing leaves nothing behind (its own windows are dropped) -/
-theorem guardRun_no_node (ms : List Window) : guardRun ms [] = [] := by
-  simp [guardRun]
+/-- Python's `range(start, stop, step)` for `step ≠ 0` -/
+theorem range_spec (a b s x : Int) (hs : s ≠ 0) :
+    x ∈ pyRange a b s ↔ ∃ k : Nat, x = a + s * k ∧ (if 0 < s then x < b else b < x) :=
+  mem_pyRange a b s x hs
+
+/-- **closed form of the iteration duration**: `Piecewise((0, ⌈(stop-start)/step⌉ ≤ 0), (Σ_{k=0}^{max(⌈…⌉,1)-1}
+body(start + k·step), True))` equals the sum of the body durations over Python's `range(start, stop, step)` —
+for every integer triple with `step ≠ 0`: empty, single, negative and non-dividing steps included. -/
+theorem forloop_duration_closed_form (g : Rat → Except Err Rat) (a b s : Int) (hs : s ≠ 0) :
+    forLoopClosedForm g a b s =
+      (do let ds ← (pyRange a b s).mapM (fun (i : Int) => g (i : Rat)); pure (sumList ds)) :=
+  closedForm_eq_range g a b s hs
+
+/-- the same for the template: the symbolic duration of a `ForLoopPT` whose range expressions evaluate to the
+integers `a, b, s` -/
+theorem forloop_template_duration (id : Option String) (body : PT) (idx : String) (start stop step : Expr)
+    (meas : List MeasDecl) (cons : List Expr) (σ : Scope) (a b s : Int) (hs : s ≠ 0)
+    (ha : σ.eval start = .ok (a : Rat)) (hb : σ.eval stop = .ok (b : Rat)) (hst : σ.eval step = .ok (s : Rat)) :
+    templateDuration (.forLoop id body idx start stop step meas cons) σ =
+      (do let ds ← (pyRange a b s).mapM (fun (i : Int) => templateDuration body (.range σ idx (i : Rat)))
+          pure (sumList ds)) :=
+  forLoop_templateDuration id body idx start stop step meas cons σ a b s hs ha hb hst
+
+/-- the duration a program reports is the sum over its leaves, each counted as often as it is played -/
+theorem duration_eq_pieces (l : Loop) : l.duration = l.piecesSum := Loop.duration_eq_piecesSum l
+
+/-- … and the sum over the fully unrolled sequence of played waveforms -/
+theorem duration_eq_play (l : Loop) : l.duration = sumList (l.play.map Wf.duration) := Loop.duration_eq_play l
+
+/-- **no accumulation**: repeating a body `n` times lasts exactly `n` times the body, in exact rationals -/
+theorem no_accumulation (n : Nat) (ms : List Window) (cs : List Loop) :
+    (Loop.mk n none ms cs).duration = Loop.durationList cs * n := duration_none n ms cs
+
+/-- an empty program part has duration zero -/
+theorem empty_is_zero (n : Nat) (ms : List Window) : (Loop.mk n none ms []).duration = 0 := by
+  simp [duration_none, Loop.durationList]
+
+/-- **durations agree (partial)**: for stage-1 templates the program lasts exactly as long as the denoted pulse -/
+theorem duration_agree_partial {pt : PT} (hs : Stage1 pt) (params : List (String × Rat))
+    (mm : Option (List (MName × Option MName))) (cm : List (Chan × Option Chan)) (prog : Loop) (P : Pulse)
+    (hprog : createProgram pt params mm cm [] = .ok (some prog))
+    (hden : denoteTop pt params mm cm = .ok P) (hpos : prog.allPos) :
+    prog.duration = P.dur ∧ prog.piecesSum = P.dur ∧ sumList (prog.play.map Wf.duration) = P.dur := by
+  have h := (createProgram_rel hs params mm cm prog P hprog hden hpos).1
+  exact ⟨h, by rw [← duration_eq_pieces, h], by rw [← duration_eq_play, h]⟩
+
+/-- **durations agree incl. time reversal (partial)**: stage-1 subset extended by `TimeReversalPT`, no positivity
+assumption; an empty program corresponds to a denoted duration of zero. -/
+theorem duration_agree_reversal_partial {pt : PT} (hs : Stage1R pt) (params : List (String × Rat))
+    (mm : Option (List (MName × Option MName))) (cm : List (Chan × Option Chan)) (prog? : Option Loop) (P : Pulse)
+    (hprog : createProgram pt params mm cm [] = .ok prog?) (hden : denoteTop pt params mm cm = .ok P) :
+    (match prog? with | some prog => prog.duration | none => 0) = P.dur := by
+  have := createProgram_relW hs params mm cm prog? P hprog hden
+  cases prog? with
+  | some prog => exact this.1
+  | none => exact this.1.symm
+
+/-! ## Non-vacuity -/
+
+example : pyRange 5 0 (-2) = [5, 3, 1] := by decide
+example : pyRange 0 5 2 = [0, 2, 4] := by decide
+example : pyRange 3 1 1 = [] := by decide
 
 end QP.Props.C04
